@@ -205,6 +205,8 @@ def run(ctx: Ctx, rs: RuleSet, tier: str):
              'copy-returning APIs hand back are never the caller\'s own '
              'nodes, even childless ones)', 1)
   c08.map_children_rule(ctx, rs, 'SHAPE.map-children')
+  from fdlstatic.rules import c01
+  c01.children_before_call(ctx, rs, rule='DOM.build-rebuilds-containers')
   entries = sorted(ENTRIES)
   own = ownrule.run_entry_points(
       ctx, rs, 'OWN.input-unmodified', entries,
